@@ -93,8 +93,15 @@ class Sign:
             cur = e
             while cur is not self.fn:
                 par = cur.parent
-                if isinstance(par, ast.If) and cur in par.body and norm(par.test) == f"{l} > {r}":
-                    return True
+                if isinstance(par, ast.If) and cur in par.body:
+                    def _conj(t_):
+                        if isinstance(t_, ast.BoolOp) and isinstance(t_.op, ast.And):
+                            for v_ in t_.values:
+                                yield from _conj(v_)
+                        else:
+                            yield norm(t_)
+                    if any(c_ in (f"{l} > {r}", f"{l} >= {r}", f"{r} < {l}", f"{r} <= {l}") for c_ in _conj(par.test)):
+                        return True  # the comparison holds whenever the body runs (a conjunct of the test)
                 cur = par
             return False
         if isinstance(e, ast.Name):
